@@ -20,6 +20,9 @@ if ! cargo +nightly fuzz build -s none --fuzz-dir /verif/fuzz --target-dir /veri
   tail -20 "$LOG"; echo "INCONCLUSIVE fuzz build failed"; exit 2
 fi
 BIN=/verif/.build/fuzz/x86_64-unknown-linux-gnu/release/$TARGET
+# the targets keep their work directory under MRV_SCRATCH/mrverif-<pid>: give them one that is removed afterwards
+MRV_SCRATCH=$(mktemp -d /tmp/mrvfuzz.XXXXXX); export MRV_SCRATCH
+trap 'rm -rf "$MRV_SCRATCH"' EXIT INT TERM
 total_runs=0; crashed=false; replay=""
 for START in empty seeded; do
   CORPUS=/verif/.build/fuzz-corpus-$ID-$START
